@@ -18,8 +18,6 @@ WrapSeqs == UNION {[1..d -> WrapKinds \ {"id"}] : d \in 0..Depth}
 Init == slot \in TxSlots /\ wraps \in WrapSeqs /\ leaf \in LeafKinds
 Next == UNCHANGED vars
 
-RECURSIVE WrapAll(_, _, _)
-WrapAll(ws, i, x) == IF i = 0 THEN x ELSE WrapAll(ws, i - 1, Wrap(ws[i], x))
 Term == WrapAll(wraps, Len(wraps), HoleLeaves[leaf])
 Tpl == InSlot(slot, Term)
 
